@@ -25,7 +25,8 @@ COQ = os.path.join(VERIF, "coq")
 WORK = os.path.join(VERIF, "work")
 HARNESS = os.path.join(VERIF, "harness")
 # evidence of runs against another checkout (ZV_REPO) never overwrites the evidence of /repo
-EVID = os.path.join(VERIF, "evidence") if os.path.realpath(REPO) == "/repo" else os.path.join(WORK, "evidence-alt")
+EVID = os.path.join(VERIF, "evidence") if (os.path.realpath(REPO) == "/repo" and not os.environ.get("ZV_EVID_ALT")) \
+    else os.path.join(WORK, "evidence-alt")
 REPLAY = os.path.join(EVID, "replay")
 
 FORBIDDEN = re.compile(
